@@ -31,6 +31,50 @@ CONTRACTS = [Contract(target=E + m, types={"self": "Engine"}, calls=CALLS, raise
                       options={"lenient": True, "protected_prefixes": (), "opaque_subscript": True})
              for m in ENTRY_POINTS]
 TARGETS = [c.key for c in CONTRACTS]
+
+# ---- reads of owned state: a request must not even LOOK at run state / component state outside the lock (check-then-act) ----------------
+import ast as _ast                                                                    # noqa: E402
+OWNED_COMPONENTS = {"method_manager", "_method_manager", "interpreter", "_interpreter", "tracking", "_tracking", "_command_manager"}
+OWNED_FLAGS = {"_runstate_started", "_runstate_paused", "_runstate_holding", "_runstate_stopping", "_last_error", "_prev_state"}
+
+
+def _is_self(n):
+    return isinstance(n, _ast.Name) and n.id == "self"
+
+
+def lemma_reads(ctx):
+    """for every request entry point (and the private delegate it calls under the lock is NOT exempted: it is only ever called with the
+    lock held, which the call-site contract above checks): every read of a run-state flag and every attribute access THROUGH an owned
+    component lies lexically inside `with self._lock:`"""
+    repo = ctx.ex.repo
+    for m in ENTRY_POINTS:
+        fi = repo.func(E + m)
+        locked = set()
+        for w in _ast.walk(fi.node):
+            if isinstance(w, _ast.With) and any(_ast.unparse(i.context_expr) == "self._lock" for i in w.items):
+                for st_ in w.body:
+                    for n in _ast.walk(st_):
+                        locked.add(id(n))
+        bad, seen = [], 0
+        for n in _ast.walk(fi.node):
+            hit = None
+            if isinstance(n, _ast.Attribute) and _is_self(n.value) and n.attr in OWNED_FLAGS:
+                hit = _ast.unparse(n)
+            elif isinstance(n, _ast.Attribute) and isinstance(n.value, _ast.Attribute) and _is_self(n.value.value) \
+                    and n.value.attr in OWNED_COMPONENTS:
+                hit = _ast.unparse(n)
+            if hit is None:
+                continue
+            seen += 1
+            if id(n) not in locked:
+                bad.append({"line": n.lineno, "expression": hit})
+        # one obligation per entry point (stable name: it is in the baseline even when the entry point reads nothing itself)
+        ctx.check_w(f"owned-state-read-only-under-the-engine-lock[{m}]", z3.BoolVal(not bad),
+                    (lambda b_, q_, c_: (lambda mo: {"function": q_, "reads_outside_the_lock": b_, "owned_reads_in_the_function": c_}))(bad, fi.qualname, seen),
+                    "call-site")
+
+
+LEMMAS = [("owned-state-reads", lemma_reads)]
 TRUSTED = ["the five Engine methods listed are the request entry points (engine_message_handlers / engine runner call exactly these for method "
            "edits, injection, control commands, cancel and force)", "threading.Lock semantics; Engine.tick holds the lock for its whole execute phase (read in the code, "
            "exercised by the native schedule, not a proved obligation)", "properties method_manager / interpreter / tracking reads themselves are not counted, only calls"]
